@@ -27,16 +27,18 @@ Standard == DOMAIN ClassOf
 Seconds == Standard \cup {"absent", "urn:verif:status:second", "Success"}
 \* besides other versions: other spellings of the number two, which are not the string "2.0"
 Versions == {"1.0", "1.1", "2.0", "2.1", "3.0", "garbage", "2", "2.00", "+2.0", "nan", "2.0 "}
+\* the StatusMessage: none, plain text, an empty element, text over several lines, non-ASCII text
+Msgs == {"absent", "text", "empty", "multiline", "nonascii"}
 Pre == {"ok", "badsig", "foreigndest"}        \* the checks that come before the status
 
 \* via: how the message reaches the SP -- a browser binding, or in a SOAP envelope (the synchronous hop skips the
 \* Destination check, nothing else).  kind "logout_response": one of the status-only response classes
 \* (parse_logout_request_response), which carry no assertion.
-Scn == [kind : {"response"}, top : Tops, second : Seconds, msg : BOOLEAN, asrt : {"none", "signed"},
+Scn == [kind : {"response"}, top : Tops, second : Seconds, msg : Msgs, asrt : {"none", "signed"},
         version : Versions, pre : Pre, via : {"post", "soap"}]
-       \cup [kind : {"request"}, top : {"Success"}, second : {"absent"}, msg : {FALSE}, asrt : {"none"},
+       \cup [kind : {"request"}, top : {"Success"}, second : {"absent"}, msg : {"absent"}, asrt : {"none"},
              version : Versions, pre : {"ok"}, via : {"post"}]
-       \cup [kind : {"logout_response"}, top : Tops, second : Seconds, msg : BOOLEAN, asrt : {"none"},
+       \cup [kind : {"logout_response"}, top : Tops, second : Seconds, msg : Msgs, asrt : {"none"},
              version : {"2.0", "1.1", "2"}, pre : {"ok"}, via : {"post", "soap"}]
 \* versions other than 2.0 are combined with two status shapes only
 WellFormed(s) == /\ s.version = "2.0" \/ s.second \in {"absent", "AuthnFailed"}
